@@ -32,6 +32,12 @@
  *   fillrec <varid> <recno>
  *   inqfill <varid>
  *   layout | snap | moveunit <n> | plan | planreset
+ *   second (template) file <datafile>.tpl:
+ *   tmake (<name>:<nbytes>)*           create it with these global text attributes, a variable tv (NC_INT scalar)
+ *                                      carrying the same attributes (lower-case pattern values), enddef, close
+ *   topen <0 ro|1 rw> | tclose | tsnap
+ *   copyatt <dir> <srcvarid|-1> <name> <dstvarid|-1>   ncmpi_copy_att; dir 0: template -> main file, 1: main -> template
+ *   tgetatt <varid|-1> <name>          length and text of an attribute of the template
  */
 #include <stdio.h>
 #include <stdlib.h>
@@ -50,6 +56,8 @@ static long long verif_move_unit = 67108864;
 static int rank, nprocs;
 static FILE *out;
 static int ncid = -1, isopen = 0;
+static int tncid = -1;
+static char tpath[4200];
 static int ndims_def = 0, nvars_def = 0, natts_def = 0;
 static long long dimlen[MAXD];
 static int vtype[MAXV], vnd[MAXV], vdim[MAXV][8];
@@ -181,6 +189,7 @@ int main(int argc, char **argv)
     alarm(170);
     if (argc < 4) { MPI_Finalize(); return 2; }
     path = argv[2];
+    snprintf(tpath, sizeof(tpath), "%s.tpl", path);
     snprintf(oname, sizeof(oname), "%s.%d", argv[3], rank);
     out = fopen(oname, "w");
     sf = fopen(argv[1], "r");
@@ -372,6 +381,51 @@ int main(int argc, char **argv)
             MPI_Barrier(MPI_COMM_WORLD);
             if (rank == 0) read_file_hex(path); else fprintf(out, "snap other\n");
             MPI_Barrier(MPI_COMM_WORLD);
+        }
+        else if (!strcmp(op, "tmake")) {
+            int tid = -1, tv = -1, e2;
+            err = ncmpi_create(MPI_COMM_WORLD, tpath, NC_CLOBBER, MPI_INFO_NULL, &tid);
+            if (err == NC_NOERR) err = ncmpi_def_var(tid, "tv", NC_INT, 0, NULL, &tv);
+            for (i = 1; i < ntok && err == NC_NOERR; i++) {
+                char nm[64], *colon = strchr(tok[i], ':'), *val; long long n, k;
+                if (!colon) continue;
+                n = atoll(colon + 1);
+                snprintf(nm, sizeof(nm), "%.*s", (int)(colon - tok[i]), tok[i]);
+                val = (char*) malloc((size_t)n + 1);
+                for (k = 0; k < n; k++) val[k] = (char)('a' + (k % 26));
+                err = ncmpi_put_att_text(tid, NC_GLOBAL, nm, (MPI_Offset)n, val);
+                if (err == NC_NOERR) err = ncmpi_put_att_text(tid, tv, nm, (MPI_Offset)n, val);
+                free(val);
+            }
+            if (tid >= 0) { e2 = ncmpi_enddef(tid); if (err == NC_NOERR) err = e2; e2 = ncmpi_close(tid); if (err == NC_NOERR) err = e2; }
+            fprintf(out, "tmake %d\n", err);
+        }
+        else if (!strcmp(op, "topen")) {
+            err = ncmpi_open(MPI_COMM_WORLD, tpath, atoi(tok[1]) ? NC_WRITE : NC_NOWRITE, MPI_INFO_NULL, &tncid);
+            fprintf(out, "topen %d\n", err);
+        }
+        else if (!strcmp(op, "tclose")) {
+            err = ncmpi_close(tncid); tncid = -1;
+            fprintf(out, "tclose %d\n", err);
+        }
+        else if (!strcmp(op, "tsnap")) {
+            MPI_Barrier(MPI_COMM_WORLD);
+            if (rank == 0) read_file_hex(tpath); else fprintf(out, "snap other\n");
+            MPI_Barrier(MPI_COMM_WORLD);
+        }
+        else if (!strcmp(op, "copyatt")) {
+            int dir = atoi(tok[1]), sv = atoi(tok[2]), dv = atoi(tok[4]);
+            if (dir == 0) err = ncmpi_copy_att(tncid, sv < 0 ? NC_GLOBAL : sv, tok[3], ncid, dv < 0 ? NC_GLOBAL : dv);
+            else          err = ncmpi_copy_att(ncid, sv < 0 ? NC_GLOBAL : sv, tok[3], tncid, dv < 0 ? NC_GLOBAL : dv);
+            fprintf(out, "copyatt %d\n", err);
+        }
+        else if (!strcmp(op, "tgetatt")) {
+            int v = atoi(tok[1]); MPI_Offset n = -1; char *val;
+            err = ncmpi_inq_attlen(tncid, v < 0 ? NC_GLOBAL : v, tok[2], &n);
+            val = (char*) calloc((size_t)(n > 0 ? n : 0) + 1, 1);
+            if (err == NC_NOERR) err = ncmpi_get_att_text(tncid, v < 0 ? NC_GLOBAL : v, tok[2], val);
+            fprintf(out, "tgetatt %d %lld %s\n", err, (long long)n, n > 0 ? val : "-");
+            free(val);
         }
         else if (!strcmp(op, "moveunit")) {
 #ifdef ENDDEF_SRC
